@@ -664,6 +664,8 @@ def stream_pairs(R):
 NUM_DT = ['i1', 'i2', 'i4', 'i8', 'f8']
 STR_DT = ['U1', 'U2', 'U3', 'U4', 'U5']
 INT_VALS = [-1, 0, 1, 2, 3, 5]
+UINT_VALS = [0, 1, 2, 3, 5]
+OTHER_DT = ['f4', 'u1', 'u2', 'u4', 'u8', 'i2', 'i8', 'f8']
 FLT_VALS = [-1.0, 0.0, -0.0, 1.0, 2.0, 3.0, 0.5, 2.5, 5.0]
 STR_VALS = ['', 'a', 'b', 'ab', 'ba', 'abc', 'abcd', 'abcde', 'bbbbb', 'c']
 SHAPES = [[1], [2], [3], [4], [5], [6], [2, 2], [2, 3], [3, 2], [1, 3]]
@@ -698,7 +700,8 @@ def rand_view(rng, shape):
     return ['slice', rng.choice([None, 1]), None, None]
 
 
-def rand_case(rng, force=None):
+def rand_case(rng, force=None, num_dt=None):
+    num_dt = num_dt or NUM_DT
     n = rng.choice([1, 2, 2, 3, 3, 3, 4, 4, 4])
     ncols = [rng.choice([1, 2, 2, 3, 3]) for _ in range(n)]
     # topology
@@ -794,10 +797,10 @@ def rand_case(rng, force=None):
             if root not in fam:
                 fam[root] = 'str' if rng.random() < 0.35 else 'num'
             if fam[root] == 'num':
-                dt = rng.choice(NUM_DT)
-                pool = FLT_VALS if dt == 'f8' else INT_VALS
-                if dt != 'i1' and rng.random() < 0.3:
-                    pool = pool + ([256.0, 65536.0] if dt == 'f8' else [256, 257, 65536] if dt != 'i2' else [256, 257])
+                dt = rng.choice(num_dt)
+                pool = FLT_VALS if dt[0] == 'f' else UINT_VALS if dt[0] == 'u' else INT_VALS
+                if dt not in ('i1', 'u1') and rng.random() < 0.3:
+                    pool = pool + ([256.0, 65536.0] if dt[0] == 'f' else [256, 257, 65536] if dt not in ('i2', 'u2') else [256, 257])
             else:
                 dt = rng.choice(STR_DT)
                 pool = STR_VALS
@@ -844,6 +847,20 @@ def stream_random(R):
     R.stream('random', systems=len(cases), queries=nq, exhaustive=False,
              bound='1..4 datasets of 1..6 elements (1-d and 2-d), 1..3 key columns of dtypes %s / %s, joins in chains, cycles, stars, complete and random graphs '
                    '(self-joins, re-joins, JoinLink add/remove, rejected shapes), selections evaluable on 0..3 datasets, every dataset asked, with and without a view' % (NUM_DT, STR_DT))
+
+
+def stream_other_dtypes(R):
+    """dtypes the model does not cover (float32, unsigned): implementation against the oracle only"""
+    n = R.pick(300, 2500)
+    nq = 0
+    for i in range(n):
+        case = rand_case(R.subrng('other', i), num_dt=OTHER_DT)
+        _, _, fails = check_case(R, case, 'other-dtypes', model_out=None)
+        nq += len(case['queries'])
+        if fails:
+            report(R, case, 'other-dtypes', fails)
+    R.stream('other-dtypes', systems=n, queries=nq, exhaustive=False,
+             bound='as the random stream, numeric key columns drawn from %s; oracle only (no model)' % OTHER_DT)
 
 
 # ------------------------------------------------------------------ stream 3: concatenate_arrays itself
@@ -939,6 +956,7 @@ def run(R):
     stream_concat(R)
     stream_pairs(R)
     stream_random(R)
+    stream_other_dtypes(R)
 
 
 def replay(R, case):
